@@ -157,7 +157,8 @@ VF_SECTION(relations, 1, 1, 60) {
   check_relations<uint64_t>(r, "uint64", {0, 1, 0x7FFFFFFFFFFFFFFFull, 0x8000000000000000ull, UINT64_MAX}, [](const uint64_t& v) { return std::to_string(v); });
   check_relations<std::string>(r, "string", {"", "a", "b", "ab", std::string("a\0", 2)}, [](const std::string& v) { return vf::show(v); });
   double inf = __builtin_inf();
-  check_relations<double>(r, "double", {-inf, -1.5, -0.0, 0.0, 1.5, inf}, [](const double& v) { return vf::fmt("%g", v); });
+  // NaN is included: every ordered relation and == are false, != is true, and the helpers must follow
+  check_relations<double>(r, "double", {-inf, -1.5, -0.0, 0.0, 1.5, inf, __builtin_nan("")}, [](const double& v) { return vf::fmt("%g", v); });
   check_relations<bool>(r, "bool", {false, true}, [](const bool& v) { return std::string(v ? "true" : "false"); });
   r.bound = "7 relations x all ordered operand pairs of 6 boundary sets";
 }
